@@ -5,7 +5,8 @@
 From Coq Require Import ZArith List Bool PrimFloat.
 Import ListNotations.
 Require Import PyBase Solver SolverFacts SolverF SolveAll Eval EvalFacts EvalFacts2 EvalFacts3 EvalF EvalExamples.
-Require Import EvalSolveAll EvalFortran EvalFortranFrame EvalExamples2 EvalDeps.
+Require Import EvalSolveAll EvalSolveSpan EvalFortran EvalFortranFrame EvalExamples2 EvalDeps.
+Require Import SolveAllSpan.
 Require Fsic.Fortran.FSem Fsic.Fortran.FSolve.
 Require Fsic.Solver.SolveAllFacts.
 Open Scope Z_scope.
@@ -304,6 +305,67 @@ Section C04_eval.
     (prog_lags num prog <= lags d)%nat -> (prog_leads num prog <= leads d)%nat ->
     solve_mon (length (status s)) prog d o span start end_ s = solve_P prog d o span start end_ s.
   Proof. exact (solve_monitored_eq num add sub mul div pow neg absf ltb leb eqb zero fun1 fun2 flagged isfin L locate prog d o span start end_ s). Qed.
+
+  (* ---- the LABEL entry point solve_period(label) ---- *)
+  Notation solve_period_P := (solve_period_P num add sub mul div pow neg absf ltb leb eqb zero fun1 fun2 flagged isfin L locate).
+  Notation solve_period_mon := (solve_period_mon num add sub mul div pow neg absf ltb leb eqb zero fun1 fun2 flagged isfin L locate).
+
+  (* solve_period(label) changes only the cells the equations assign for the period the label names (with an offset
+     also the endogenous cells of that period) and status / iterations at that period *)
+  Theorem C04_solve_period_touches_only_its_period (prog : program num) d o (span : list L) lab i s :
+    SolveAllFacts.locate_ok L locate span -> nth_error span i = Some lab ->
+    length (status s) = length span ->
+    wf_vals (length (status s)) (vals_of s) ->
+    (prog_lags num prog <= lags d)%nat -> (prog_leads num prog <= leads d)%nat ->
+    let s' := fst (solve_period_P prog d o lab s) in
+    (forall j q, (forall k, In (j, k) (prog_lhs num prog) -> Z.of_nat q <> Z.of_nat i + k) ->
+                 (offset o = 0 \/ ~ In j (endo d) \/ q <> i) ->
+                 nth_error (nth j (vals_of s') []) q = nth_error (nth j (vals_of s) []) q) /\
+    shape (vals_of s') = shape (vals_of s) /\ sf_frame i s s'.
+  Proof. exact (solve_period_P_touches_only_its_period num add sub mul div pow neg absf ltb leb eqb zero fun1 fun2 flagged isfin L locate prog d o span lab i s). Qed.
+
+  (* a label the lookup cannot resolve to one position: KeyError, nothing changes *)
+  Theorem C04_solve_period_bad_label_no_change (prog : program num) d o lab s :
+    is_int (locate lab) = false -> solve_period_P prog d o lab s = (s, Raise KeyError).
+  Proof. exact (solve_period_P_bad_label num add sub mul div pow neg absf ltb leb eqb zero fun1 fun2 flagged isfin L locate prog d o lab s). Qed.
+
+  (* reads never wrap through solve_period, whatever the label *)
+  Theorem C04_solve_period_monitored_eq (prog : program num) d o lab s :
+    wf_vals (length (status s)) (vals_of s) -> vars_ok num prog (length (vals_of s)) ->
+    (prog_lags num prog <= lags d)%nat -> (prog_leads num prog <= leads d)%nat ->
+    solve_period_mon (length (status s)) prog d o lab s = solve_period_P prog d o lab s.
+  Proof. exact (solve_period_monitored_eq num add sub mul div pow neg absf ltb leb eqb zero fun1 fun2 flagged isfin L locate prog d o lab s). Qed.
+
+  (* ---- every supported span type (list / tuple / range, NumPy array, pandas Index; model Solver/SolveAllSpan.v),
+          labels without repetition: no lookup hypothesis left ---- *)
+  Theorem C04_solve_period_every_span_touches_only_its_period k (prog : program num) d o (span : list Z) lab i s :
+    NoDup span -> nth_error span i = Some lab ->
+    length (status s) = length span ->
+    wf_vals (length (status s)) (vals_of s) ->
+    (prog_lags num prog <= lags d)%nat -> (prog_leads num prog <= leads d)%nat ->
+    let s' := fst (EvalSolveSpan.solve_period_P num add sub mul div pow neg absf ltb leb eqb zero fun1 fun2 flagged isfin Z (locate_span k span) prog d o lab s) in
+    (forall j q, (forall c, In (j, c) (prog_lhs num prog) -> Z.of_nat q <> Z.of_nat i + c) ->
+                 (offset o = 0 \/ ~ In j (endo d) \/ q <> i) ->
+                 nth_error (nth j (vals_of s') []) q = nth_error (nth j (vals_of s) []) q) /\
+    shape (vals_of s') = shape (vals_of s) /\ sf_frame i s s'.
+  Proof. exact (solve_period_every_span_touches_only_its_period num add sub mul div pow neg absf ltb leb eqb zero fun1 fun2 flagged isfin k prog d o span lab i s). Qed.
+
+  Theorem C04_solve_every_span_default_range_frame k (prog : program num) d o (span : list Z) s :
+    NoDup span -> min_iter o <= max_iter o ->
+    length (status s) = length span -> (lags d + leads d < length span)%nat ->
+    wf_vals (length (status s)) (vals_of s) ->
+    (prog_lags num prog <= lags d)%nat -> (prog_leads num prog <= leads d)%nat ->
+    let n := length (status s) in
+    let s' := fst (EvalSolveAll.solve_P num add sub mul div pow neg absf ltb leb eqb zero fun1 fun2 flagged isfin Z (locate_span k span)
+                           prog d o span None None s) in
+    (forall i q,
+        (forall c p, In (i, c) (prog_lhs num prog) -> (lags d <= p)%nat -> (p + leads d < n)%nat -> Z.of_nat q <> Z.of_nat p + c) ->
+        (offset o = 0 \/ ~ In i (endo d) \/ (q < lags d)%nat \/ (n <= q + leads d)%nat) ->
+        nth_error (nth i (vals_of s') []) q = nth_error (nth i (vals_of s) []) q) /\
+    shape (vals_of s') = shape (vals_of s) /\
+    (forall q, (q < lags d)%nat \/ (n <= q + leads d)%nat ->
+               nth_error (status s') q = nth_error (status s) q /\ nth_error (iters s') q = nth_error (iters s) q).
+  Proof. exact (solve_every_span_default_range_frame num add sub mul div pow neg absf ltb leb eqb zero fun1 fun2 flagged isfin k prog d o span s). Qed.
 End C04_eval.
 
 (* ============ Part B2: the second engine — FortranEngine.solve_t over the compiled template (model Fortran/FSolve.v) ============ *)
@@ -458,6 +520,20 @@ Theorem C04_infeasible_eval_pass_wraps :
     acc_req a = t + (-1) /\ acc_srv a = Some (n - 1)%nat /\ access_ok n t p a = false.
 Proof. exact infeasible_eval_pass_wraps. Qed.
 
+(* finding (still present): the user lowers the instance attribute model.lags below the deepest lag of the equations — the guard
+   follows the attribute, the period is SERVED, Y[t-1] is served the LAST period, and the result is stamped solved.
+   Every theorem above has the hypothesis prog_lags <= lags d that excludes exactly this class. *)
+Theorem C04_lowered_instance_lags_refuted :
+  exists (prog : fprogram) d o t s p (a : access),
+    (lags d < prog_lags float prog)%nat /\
+    py_pos (length (status s)) t = Some p /\ (p < prog_lags float prog)%nat /\
+    snd (f_solve_t_P [] prog d o t s) = Ret true /\
+    In a (snd (f_eval_pass [] true prog t (vals_of s))) /\ acc_req a = t + (-1) /\
+    acc_srv a = Some (length (status s) - 1)%nat /\
+    nth_error (nth 0 (vals_of s) []) 0 = Some 1%float /\
+    nth_error (nth 0 (vals_of (fst (f_solve_t_P [] prog d o t s))) []) 0 = Some 3%float.
+Proof. exact lowered_instance_lags_refuted. Qed.
+
 (* finding (Fortran engine, still present): infeasible period rejected, yet the wrapper's offset copy was left behind *)
 Theorem C04_fortran_infeasible_after_offset_refuted :
   exists (fm : FSolve.fmod) d o t s p,
@@ -495,6 +571,13 @@ Print Assumptions C04_no_event_no_change_or_finding3.
 Print Assumptions C04_no_event_no_change.
 Print Assumptions C04_solve_seq_frame_feasible.
 Print Assumptions C04_solve_default_range_frame.
+Print Assumptions C04_solve_period_touches_only_its_period.
+Print Assumptions C04_solve_period_bad_label_no_change.
+Print Assumptions C04_solve_period_monitored_eq.
+Print Assumptions C04_solve_period_every_span_touches_only_its_period.
+Print Assumptions C04_solve_every_span_default_range_frame.
+Print Assumptions C04_lowered_instance_lags_refuted.
+Print Assumptions ex_span_nodup.
 Print Assumptions C04_solve_entry_default_range_frame.
 Print Assumptions C04_solve_entry_monitored_eq.
 Print Assumptions C04_fortran_infeasible_rejected.
